@@ -85,6 +85,12 @@ CLAIMED = {
         text="For every generated function with scalar parameters the shadow block prints and asserts call results for 1-3 literal argument tuples; the compiled twin program performs the same calls in main. The text printed between 'Testing f...' and PASSED/FAILED must equal the binary's output slice, PASSED/FAILED must match the constructed truth of the assertions (about 1 in 7 falsified), all-true programs must not be refused and programs with a false assertion must be.",
         note="Functions with array/struct parameters are only reached as callees. Open evaluator findings gate their trigger shapes for C03/C06 only (ledger gate_for).",
         design="3/C03"),
+    "C19": dict(
+        category="exploration",
+        technique="metamorphic oracle: the same generated sources compiled under Hypothesis-drawn pairs/triples of configurations must give byte-identical .nvm and generated C and equal diagnostics",
+        text="Configurations vary the working directory, relative vs absolute invocation path, TMPDIR, 0-50 extra environment variables, MALLOC_PERTURB_, ASLR (setarch -R), LANG, process ids (padding processes) and the compiler build itself (plain vs ASan: different allocator and layout). Compared: nano_virt --emit-nvm bytes, nanoc -S generated C bytes, exit statuses, and both tools' own diagnostics with the source path normalised. Programs come from progen plus a two-file import example.",
+        note="No MSan toolchain: uninitialised-memory dependence is attacked only through MALLOC_PERTURB_/ASLR/allocator change. While the module-path finding is open, multi-module cases keep cwd and path form fixed (counted).",
+        design="3/C19"),
 }
 
 NOT_YET = {
